@@ -321,7 +321,7 @@ func genPipePlan(seed int64, o PipeGenOpts) *PipePlan {
 		p.Cfg.CapUDP = 1000
 		p.Cfg.KeepBias = 950 // long uninterrupted stretches: bursts pile up in the queue before the sampler looks
 		p.Cfg.StallProb = 0
-		for k := range p.Cfg.Workers {
+		for _, k := range allProtos { // fixed order: no map iteration in plan generation
 			p.Cfg.Workers[k] = 1 + r.Intn(2)
 		}
 		var ph1 []int
